@@ -15,7 +15,7 @@ ID = 'C12'
 LEVEL = 'exploration'
 ENGINE = 'vsched'
 RULE = ('Domain 1 (timeouts, virtual time): one phase under test with duration d and timeout t on a grid around each other and '
-        'around the 3 s join poll (d in {0, t-eps, t+eps, t+1, t+3-eps, t+3+eps, never returns}, t in {0.5, 3, 5, default 180}) x body '
+        'around the 3 s join poll (d in {0, t-eps, t+eps, t+1, t+3-eps, t+3+eps, never returns}, t in {0.5, 3, 5, default 180, default set through --phase_default_timeout_s}) x body '
         'kind {returns, sleeps killable, swallows the termination error and keeps running, does late work after being abandoned: '
         'sets its measurement, attaches, logs, returns FAIL} x position {alone, group main with teardown, group setup, group '
         'teardown} x repeat_on_timeout; the whole grid is enumerated and every case is also run under every single preemption of '
@@ -120,6 +120,7 @@ def timeout_case(case):
       opts['repeat_limit'] = 2
     put = htf.PhaseOptions(**opts)(htf.measures(htf.Measurement('pm').in_range(0, 10))(htf.plug(plug=P)(body)))
 
+    @htf.PhaseOptions(timeout_s=180.0)   # its own: the default may have been lowered through the flag
     @htf.measures(htf.Measurement('tm').in_range(0, 10))
     def td(test):
       log.append(('td', s.now))
@@ -143,7 +144,15 @@ def timeout_case(case):
     test = htf.Test(*nodes)
     got = []
     test.add_output_callbacks(got.append)
-    ret = test.execute()
+    from openhtf.core import phase_executor  # pylint: disable=g-import-not-at-top
+    default_before = phase_executor.DEFAULT_PHASE_TIMEOUT_S
+    if case.get('flag') is not None:
+      # the default phase timeout as an operator sets it: on the command line
+      phase_executor.ARG_PARSER.parse_known_args(['--phase_default_timeout_s', str(case['flag'])])
+    try:
+      ret = test.execute()
+    finally:
+      phase_executor.DEFAULT_PHASE_TIMEOUT_S = default_before
     end = s.now
     rec = got[0]
     recs = [(p.name, p.outcome.name, type(p.result.phase_result).__name__ if p.result.phase_result is not None and not hasattr(p.result.phase_result, 'name')
@@ -172,9 +181,9 @@ def check_timeout(case):
       if got is None or got[0] != tidx or not got[1] or tuple(got[1][1:3]) != (func, line):
         r.classes = ['timeout', 'stall-drift']
         return r, s
-  t = case['t'] if case['t'] is not None else 180.0
+  t = case['t'] if case['t'] is not None else float(case.get('flag') or 180.0)
   d = float('inf') if case['d'] == 'inf' else case['d']
-  tag = 'pos:%s/kind:%s' % (case['pos'], case['kind'])
+  tag = 'pos:%s/kind:%s%s' % (case['pos'], case['kind'], '/--phase_default_timeout_s=%s' % case['flag'] if case.get('flag') is not None else '')
   near = abs(d - t) <= 2 * EPS or (t < d <= t + POLL + 2 * EPS)
   r.nontrivial = near or bool(s.effective_preemptions)
   r.classes = ['timeout', 'pos:' + case['pos'], 'kind:' + case['kind'], 't:%s' % case['t'],
@@ -253,6 +262,11 @@ def timeout_grid():
     for frac in (0.3, 0.4, 0.6, 0.9):
       for pos in ('alone', 'main', 'setup', 'teardown'):
         yield {'t': t, 'd': round(tt * frac, 4), 'kind': 'repeats', 'pos': pos, 'rot': False}
+  for flag in (5, 2.5, 400):
+    for d in (0.0, flag - EPS, flag + EPS, 'inf'):
+      for kind in ('returns', 'killable'):
+        for pos in ('alone', 'main'):
+          yield {'t': None, 'flag': flag, 'd': d if d == 'inf' else round(d, 4), 'kind': kind, 'pos': pos, 'rot': False}
 
 
 # ------------------------------------------------------------------ domain 2
